@@ -4,7 +4,7 @@
    Real numbers of the standard library (classical axioms). *)
 From Coq Require Import ZArith Reals Lra Lia List.
 From Osmo Require Import Base.DecModel Gen.C10_consts C10.Model C10.Spec C10.ProofsSum C10.ProofsChain C10.ProofsTwap
-  C10.GeomBound C10.GeomReal C10.LogExp C10.ProofsFull.
+  C10.GeomBound C10.GeomReal C10.LogExp C10.ProofsFull C10.ProofsAnswer.
 Open Scope R_scope.
 
 Definition rintegral (f : Z -> R) (a b : Z) : R := rsum f a (Z.to_nat (b - a)).
@@ -140,4 +140,42 @@ Proof.
   intros He Hd Hex Hlg t0 h0 w0 w1 evs p G now q0 start stop f v Hh Hn Hs Hk Hm Hq price Hnz Hadm.
   apply (geom_true_mean lg ex eta delta He Hd Hex admissible Hlg price (ms start) (ms stop) q0 v Hm Hadm).
   eapply geom_conditional; eassumption.
+Qed.
+
+(* ---- for the model's own twap_log and exp2: the two accuracy statements (proved in C10/BridgeC13.v from C13's theorems)
+   and what follows from them ---- *)
+Definition exp2_accuracy_stmt : Prop :=
+  forall e E, exp2 e = Some E -> (0 <= e)%Z -> Rabs (bR E - Rpower 2 (bR e)) <= 1 / 10 ^ 19 * Rpower 2 (bR e).
+Definition twap_log_accuracy_stmt : Prop :=
+  forall p, (0 < p <= maxp)%Z -> (0 < p)%Z /\ exists l, twap_log p = Some l /\ Rabs (dR l - log2R (dR p)) <= 2 / 10 ^ 18.
+
+Theorem geom_twap_model :
+  exp2_accuracy_stmt -> twap_log_accuracy_stmt ->
+  forall t0 h0 w0 w1 evs p G now q0 start stop f v,
+  history twap_log t0 h0 w0 w1 evs p G -> (r_time (p_recent p) <= now)%Z ->
+  (t0 <= start)%Z -> (max_keep t0 evs <= start)%Z -> (ms start < ms stop)%Z ->
+  twap_between twap_log exp2 now p q0 true start stop = QVal f v ->
+  let price := price_at (spec_events t0 w0 w1 evs) true 0 in
+  integral (fun tau => glogv twap_log (price tau)) (ms start) (ms stop) <> 0%Z ->
+  (forall tau, (ms start <= tau < ms stop)%Z -> (0 < price tau <= maxp)%Z) ->
+  let M := (rintegral (fun tau => log2R (dR (price tau))) (ms start) (ms stop) / IZR (ms stop - ms start))%R in
+  let target := Rpower 2 (if q0 then M else (- M)%R) in
+  (Rabs (dR v - target) <= (51 / 10 ^ 9 + 9 / 10 ^ 18) * target + 3 / 10 ^ 18)%R.
+Proof.
+  intros Hex Hlg t0 h0 w0 w1 evs p G now q0 start stop f v Hh Hn Hs Hk Hm Hq price Hnz Hadm M target.
+  assert (0 <= 1 / 10 ^ 19 <= 1 / 10 ^ 18) as He.
+  { split; [apply Rlt_le, Rdiv_lt_0_compat; [lra|apply pow_lt; lra]|].
+    unfold Rdiv. rewrite !Rmult_1_l. apply Rinv_le_contravar; [apply pow_lt; lra|apply Rle_pow; [lra|lia]]. }
+  assert (0 <= 2 / 10 ^ 18 <= 1 / 10 ^ 9) as Hd.
+  { pose proof pow18_pos. split; [apply Rlt_le, Rdiv_lt_0_compat; lra|].
+    replace (10 ^ 18) with (10 ^ 9 * 10 ^ 9) by (rewrite <- pow_add; reflexivity). assert (0 < 10 ^ 9) by (apply pow_lt; lra).
+    assert (2 <= 10 ^ 9) by (replace 2 with (2 * 1) by ring; assert (1 <= 10 ^ 8) by (apply pow_R1_Rle; lra); replace (10 ^ 9) with (10 * 10 ^ 8) by (rewrite <- tech_pow_Rmult; reflexivity); nra).
+    apply Rmult_le_reg_r with (10 ^ 9 * 10 ^ 9); [nra|].
+    replace (2 / (10 ^ 9 * 10 ^ 9) * (10 ^ 9 * 10 ^ 9)) with 2 by (field; lra).
+    replace (1 / 10 ^ 9 * (10 ^ 9 * 10 ^ 9)) with (10 ^ 9) by (field; lra). assumption. }
+  pose proof (geom_twap_true_mean twap_log exp2 (1 / 10 ^ 19) (2 / 10 ^ 18) (fun p => (0 < p <= maxp)%Z) He Hd Hex Hlg
+                t0 h0 w0 w1 evs p G now q0 start stop f v Hh Hn Hs Hk Hm Hq Hnz Hadm) as Hb.
+  cbv zeta in Hb. fold price in Hb. fold M in Hb. fold target in Hb.
+  replace (51 / 10 ^ 9 + 3 * (2 / 10 ^ 18 + 1 / 10 ^ 18)) with (51 / 10 ^ 9 + 9 / 10 ^ 18) in Hb by (field; apply pow_nonzero; lra).
+  exact Hb.
 Qed.
